@@ -44,6 +44,16 @@ def check(case):
     t = Tree(node, metadata=dict(meta))
     M = model_arg(m, spec, len(case['tree'][1]) // 2)
     g = layout.interpret(t, M)
+    if len(case['tree'][1]) % 3 == 0:
+        # the read-only diagnostics are asked first; and the graph's metadata is the graph's own, not the tree's
+        layout.node_contexts(g)
+        for tr_ in g.triples:
+            layout.appears_inverted(g, tr_)
+            layout.get_pushed_variable(g, tr_)
+        g.metadata['__scribble'] = 'x'
+        if dict(t.metadata) != meta:
+            f.append(('graph-metadata-shared-with-tree', '%s: tree metadata became %r' % (fmt(node), dict(t.metadata))))
+        del g.metadata['__scribble']
     t2 = layout.configure(g, model=M)
     want = strip_empty_concepts(node)
     if t2.node != want:
@@ -78,14 +88,14 @@ def classes(case):
 
 @st.composite
 def _cases(draw, deep=False, large=False):
-    spec = draw(models.model_specs(open_patterns=True))
+    spec = draw(models.model_specs(open_patterns=True, hand_noop=True))
     j = draw(trees.wf_trees(spec, max_nodes=40 if large else (14 if deep else 8), deep=deep, wide=14 if large else 3))
     opts = [pick(draw, OPTS), pick(draw, OPTS)]
     meta = draw(trees.metadata()) if draw(st.integers(0, 3)) == 0 else {}
     return {'tree': j, 'model': spec, 'opts': opts, 'meta': meta}
 
 
-SMALL_MODELS = [{'name': 'default'}, {'name': 'noop'}]
+SMALL_MODELS = [{'name': 'default'}, {'name': 'noop'}, {'name': 'noop', 'by_override': True}]
 NCHUNK = 32
 
 
